@@ -151,6 +151,23 @@ def scen_longlived_operator(which, method, seed, rederived):
     return call, keep
 
 
+def scen_quad_limits(kind, seed):
+    """quad over half-infinite / infinite intervals (the change of variables is set up per call), limits as numbers or tensors"""
+    a = torch.tensor(0.7, dtype=DT).requires_grad_()
+    xl = torch.tensor(0.2, dtype=DT).requires_grad_()
+    keep = (a, xl)
+    inf_ = float("inf")
+
+    def call():
+        f = lambda x, a_: torch.exp(-a_ * x * x)
+        if kind == "R":
+            return xitorch.integrate.quad(f, -inf_, inf_, params=(a,), n=20), [a]
+        if kind == "half":
+            return xitorch.integrate.quad(f, xl, inf_, params=(a,), n=20), [a, xl]
+        return xitorch.integrate.quad(f, torch.tensor(-inf_, dtype=DT), xl * 1.0, params=(a,), n=20), [a, xl]
+    return call, keep
+
+
 def scen_singular(which, seed):
     """inputs that send the direct shifted solve through its singular-matrix fallback (a shift exactly on the spectrum)"""
     d = torch.tensor([1.0, 2.0, 3.0, 4.0, 5.0], dtype=DT).requires_grad_()
@@ -217,10 +234,12 @@ def scenarios(thorough, seed):
         for operands in (("E", "EM") if thorough else ("EM",)):
             out.append(("solve/%s/dense+%s" % (m, operands), lambda m=m, operands=operands: scen_linalg("solve", m, seed, operands=operands)))
     # operators that outlive the calls (matrix-free, adjoint products through the fallback)
-    for m in (["bicgstab", "gmres", "exactsolve", "cg"] if thorough else ["bicgstab", "exactsolve"]):
+    for m in (["bicgstab", "gmres", "exactsolve", "cg"] if thorough else ["bicgstab"]):
         for red in (False, True):
             out.append(("solve/%s/long-lived-mv-only-operator%s" % (m, "+rederived" if red else ""), lambda m=m, red=red: scen_longlived_operator("solve", m, seed, red)))
     out.append(("svd/exacteig/long-lived-mv-only-operator", lambda: scen_longlived_operator("svd", "exacteig", seed, True)))
+    for kind in (("R", "half", "half-tensor-inf") if thorough else ("R", "half")):
+        out.append(("quad/leggauss/limits-%s" % kind, lambda kind=kind: scen_quad_limits(kind, seed)))
     out.append(("svd/davidson/dense", lambda: scen_linalg("svd", "davidson", seed)))
     out.append(("svd/exacteig/dense", lambda: scen_linalg("svd", "exacteig", seed)))
     out.append(("symeig/custom_exacteig/exactly-representable-spectrum", lambda: scen_singular("symeig-backward", seed)))
